@@ -21,6 +21,7 @@ type Iter struct {
 	TV  int `json:"tv"`
 	Ret int `json:"ret"` // 0 ok, 1 throws RV, 2 returns a non-object, 3 no return method
 	RV  int `json:"rv"`
+	BJ  int `json:"bj,omitempty"` // index+1 of a value the built-in consumer itself rejects (0 = none)
 	TM  int `json:"tm,omitempty"` // how step tj fails: 0 next() throws, 1 the result's value getter throws, 2 its done getter throws
 }
 
@@ -46,6 +47,8 @@ type Case struct {
 	Script  []bool `json:"script,omitempty"`
 	Surface string `json:"surface,omitempty"` // destruct spread from map promiseall
 	It      *Iter  `json:"it,omitempty"`
+	It2     *Iter  `json:"it2,omitempty"`
+	Thr     bool   `json:"thr,omitempty"` // generator surfaces: finish with throw(777) instead of return(7)
 	Want    int    `json:"want,omitempty"` // destructuring pattern length
 	SJ      int    `json:"sj,omitempty"`   // step throws at index sj-1 (0 = never)
 	SV      int    `json:"sv,omitempty"`
@@ -73,7 +76,7 @@ func one(ss []Stmt) *Stmt {
 }
 
 func jsIter(it *Iter) string {
-	return fmt.Sprintf("mkit(%d,%d,%d,%d,%d,%d,%d)", it.ID, it.Len, it.TJ, it.TV, it.Ret, it.RV, it.TM)
+	return fmt.Sprintf("mkit(%d,%d,%d,%d,%d,%d,%d,%d)", it.ID, it.Len, it.TJ, it.TV, it.Ret, it.RV, it.TM, it.BJ-1)
 }
 
 func jsStmt(s *Stmt, sb *strings.Builder) {
@@ -230,7 +233,7 @@ func coqStmt(s *Stmt) string {
 // running a case in goja
 
 const prelude = `
-function mkit(id,len,tj,tv,ret,rv,tm){
+function mkit(id,len,tj,tv,ret,rv,tm,bj){
   var i=0; var o={};
   o[Symbol.iterator]=function(){ return o; };
   o.next=function(){ lg(1,id); var k=i++;
@@ -239,11 +242,12 @@ function mkit(id,len,tj,tv,ret,rv,tm){
       if (tm===2) return {get done(){ throw tv; }, value:[k,k]};
       throw tv;
     }
-    if (k>=len) return {done:true,value:undefined}; return {done:false,value:[k,k]}; };
+    if (k>=len) return {done:true,value:undefined}; return {done:false,value:(k===bj ? BADV : [k,k])}; };
   if (ret!==3) o.return=function(){ lg(2,id); if (ret===1) throw rv; if (ret===2) return 5; return {}; };
   return o;
 }
 function so(){ so(); }
+var BADV = 5;
 `
 
 type obs struct {
@@ -428,6 +432,26 @@ func builtinSource(c *Case) string {
 		return fmt.Sprintf("var M=function(){}; var k=0; var m=new Map(); var set0=Map.prototype.set; Map.prototype.set=function(a,b){ if (k++===%d) throw %d; return set0.call(this,a,b); }; try { new Map(%s); } finally { Map.prototype.set=set0; } undefined", sj, c.SV, it)
 	case "set":
 		return fmt.Sprintf("var k=0; var add0=Set.prototype.add; Set.prototype.add=function(a){ if (k++===%d) throw %d; return add0.call(this,a); }; try { new Set(%s); } finally { Set.prototype.add=add0; } undefined", sj, c.SV, it)
+	case "map_native": // a non-object entry: TypeError raised by the constructor itself
+		return fmt.Sprintf("BADV = 5; new Map(%s); undefined", it)
+	case "fromentries_native":
+		return fmt.Sprintf("BADV = null; Object.fromEntries(%s); undefined", it)
+	case "weakset_native":
+		return fmt.Sprintf("BADV = 7; new WeakSet(%s); undefined", it)
+	case "from_native": // native mapping function rejecting a Symbol
+		return fmt.Sprintf("BADV = Symbol(); Array.from(%s, Number); undefined", it)
+	case "gen_outer":
+		fin := "gi.return(7)"
+		if c.Thr {
+			fin = "gi.throw(777)"
+		}
+		return fmt.Sprintf("function* g(){ for (var x of %s) { try { yield x; } finally { ev(901); } } } var gi=g(); for (var i=0;i<%d;i++) gi.next(); %s; undefined", it, c.Want, fin)
+	case "gen_outer_nested":
+		fin := "gi.return(7)"
+		if c.Thr {
+			fin = "gi.throw(777)"
+		}
+		return fmt.Sprintf("function* g(){ for (var x of %s) { try { for (var y of %s) { yield y; } } finally { ev(901); } } } var gi=g(); for (var i=0;i<%d;i++) gi.next(); %s; undefined", it, jsIter(c.It2), c.Want, fin)
 	case "fromentries":
 		return fmt.Sprintf("Object.fromEntries(%s); undefined", it)
 	case "restdestruct":
@@ -527,6 +551,14 @@ func runCase(c *Case) vh.Record {
 			st = fmt.Sprintf("(Some (%d,%d))", c.SJ-1, c.SV)
 		}
 		term = fmt.Sprintf("CBuiltin %s %s %s %s %s", coqIter(c.It), want, st, vh.CoqList(o.events), o.out)
+		if c.Surface == "gen_outer" || c.Surface == "gen_outer_nested" {
+			it2 := c.It
+			if c.It2 != nil {
+				it2 = c.It2
+			}
+			term = fmt.Sprintf("CGenOuter %s %s %s %s %d %s %s", vh.CoqBool(c.Surface == "gen_outer_nested"), vh.CoqBool(c.Thr),
+				coqIter(c.It), coqIter(it2), c.Want, vh.CoqList(o.events), o.out)
+		}
 		if c.Surface == "yieldstar_catch" || c.Surface == "genforof_catch" {
 			term = fmt.Sprintf("CGenCatch %s %d %s %s", coqIter(c.It), c.Want, vh.CoqList(o.events), o.out)
 		}
